@@ -46,7 +46,15 @@ func VerifC20_RelatedInformerLifecycle() {
 	mgr.parentKinds.Set(schema.GroupKind{Group: env.ThingRes.Group, Kind: env.ThingRes.Kind}, env.ThingRes)
 	mgr.parentInformers.Set(verifC15GVR(env.ThingRes), dynamicinformer.VerifNewResourceInformer(parentLister))
 	stopCh := make(chan struct{})
-	mgr.Start(stopCh)
+	// the composite controller hands the manager its stop channel (Start); the
+	// decorator controller never calls Start - its manager works with a nil
+	// channel and is stopped by Stop() alone
+	started := rt.Bool("hosting-controller-called-start")
+	if started {
+		mgr.Start(stopCh)
+	} else {
+		rt.Cover("related/manager-never-started")
+	}
 
 	p1 := env.Thing("ns", "p1", "u1")
 	p2 := env.Thing("ns", "p2", "u2")
@@ -54,7 +62,7 @@ func VerifC20_RelatedInformerLifecycle() {
 
 	// the controller may be told to stop while the first related informer is
 	// still waiting for its initial LIST
-	stoppedWhileWaiting := rt.Bool("stopped-while-related-cache-syncs")
+	stoppedWhileWaiting := started && rt.Bool("stopped-while-related-cache-syncs")
 	if stoppedWhileWaiting {
 		stub.NextUnsynced = true
 		close(stopCh)
